@@ -3,6 +3,7 @@
 package sample
 
 import (
+	"errors"
 	"fmt"
 	"runtime"
 	"sort"
@@ -13,6 +14,7 @@ import (
 	"time"
 
 	"github.com/honeycombio/refinery/config"
+	"github.com/honeycombio/refinery/internal/peer"
 	"github.com/honeycombio/refinery/internal/verifkit"
 	"github.com/honeycombio/refinery/logger"
 	"github.com/honeycombio/refinery/metrics"
@@ -71,6 +73,18 @@ type c13Peers struct {
 	running   atomic.Int64 // callback goroutines not yet finished
 	fired     int
 
+	// faults: GetPeers returns an error for the next failNext calls, and otherwise with
+	// probability failProb (suspended while faultsOff). lastObserved = size of the list
+	// returned by the last successful call; faultSince = a call failed after the most
+	// recent change of the list.
+	failNext     int
+	failProb     float64
+	faultsOff    bool
+	frng         *verifkit.Rand
+	faults       int
+	lastObserved int
+	faultSince   bool
+
 	// parking: the parkAt-th GetPeers call from arming returns only after release is
 	// closed; it takes its snapshot first and does not hold mu while parked.
 	parkAt  int
@@ -92,9 +106,45 @@ func (p *c13Peers) disarm() {
 	p.mu.Unlock()
 }
 
+// current is the driver's view of the membership; it is not a GetPeers call.
+func (p *c13Peers) current() int {
+	p.mu.Lock()
+	defer p.mu.Unlock()
+	return len(p.list)
+}
+
+// allowed: peer counts the goals may be derived from. Always the current count; if a
+// GetPeers call failed after the most recent change the property does not say what the
+// node should assume, so the last successfully observed count is accepted too.
+func (p *c13Peers) allowed() []int {
+	p.mu.Lock()
+	defer p.mu.Unlock()
+	out := []int{len(p.list)}
+	if p.faultSince && p.lastObserved != len(p.list) {
+		out = append(out, p.lastObserved)
+	}
+	return out
+}
+
+func (p *c13Peers) setFaults(next int, off bool) {
+	p.mu.Lock()
+	p.failNext, p.faultsOff = next, off
+	p.mu.Unlock()
+}
+
 func (p *c13Peers) GetPeers() ([]string, error) {
 	p.mu.Lock()
+	if p.failNext > 0 || (!p.faultsOff && p.failProb > 0 && p.frng.Chance(p.failProb)) {
+		if p.failNext > 0 {
+			p.failNext--
+		}
+		p.faults++
+		p.faultSince = true
+		p.mu.Unlock()
+		return nil, errors.New("scripted peers: peer list unavailable")
+	}
 	snap := append([]string(nil), p.list...)
+	p.lastObserved = len(snap)
 	var wait chan struct{}
 	if p.parkAt > 0 {
 		p.parkAt--
@@ -156,6 +206,9 @@ func (p *c13Peers) set(list []string) {
 	p.mu.Lock()
 	changed := strings.Join(p.list, ",") != strings.Join(list, ",")
 	p.list = list
+	if changed {
+		p.faultSince = false
+	}
 	cbs := append([]func(){}, p.callbacks...)
 	if changed {
 		p.fired++
@@ -169,6 +222,14 @@ func (p *c13Peers) set(list []string) {
 		p.running.Add(1)
 		go c13RunCallback(p, cb)
 	}
+}
+
+// c13ExactCap copies l into a slice without spare capacity (FilePeers.GetPeers appends
+// its own address to the slice the config returns).
+func c13ExactCap(l []string) []string {
+	out := make([]string, len(l))
+	copy(out, l)
+	return out
 }
 
 func c13PeerList(rng *verifkit.Rand, n int) []string {
@@ -422,11 +483,13 @@ func c13parkedCreation(run *verifkit.Run, rng *verifkit.Rand, batch int, peers *
 	if rng.Chance(0.3) {
 		nth = rng.Range(1, calls)
 	}
-	cur, _ := peers.GetPeers()
-	n := len(cur)
-	for n == len(cur) {
+	cur := peers.current()
+	n := cur
+	for n == cur {
 		n = verifkit.Pick(rng, 1, 2, 3, 4, 5, 7, 12)
 	}
+	peers.setFaults(0, true)
+	defer peers.setFaults(0, false)
 	*history = append(*history, c13step{Batch: batch, Op: "get-with-parked-GetPeers", W: c.w, Env: c.env.Name, N: n, Nth: nth})
 	fmt.Fprintf(kinds, "K%d/%d;", nth, calls)
 
@@ -468,26 +531,86 @@ func c13parkedCreation(run *verifkit.Run, rng *verifkit.Rand, batch int, peers *
 	peers.inflight.Wait()
 }
 
+// c13faultyCreation: from a joined state one worker lazily creates a sampler while the
+// GetPeers calls made by that creation fail (all of them, or a PRNG-chosen number of the
+// first ones). Nothing else runs, so no later successful call can hide the effect.
+func c13faultyCreation(run *verifkit.Run, rng *verifkit.Rand, batch int, peers *c13Peers, factory *SamplerFactory,
+	file *c13file, caches []map[string]Sampler, history *[]c13step, kinds *strings.Builder) {
+	type cand struct {
+		w   int
+		env *c13env
+	}
+	var cands []cand
+	for w := range caches {
+		for _, e := range file.Envs {
+			if _, ok := caches[w][e.Name]; !ok {
+				cands = append(cands, cand{w, e})
+			}
+		}
+	}
+	if len(cands) == 0 {
+		run.Count("faulty_steps_skipped_everything_cached", 1)
+		return
+	}
+	c := cands[rng.Intn(len(cands))]
+	calls := 1 + len(c.env.Rules)
+	nfail := calls
+	if rng.Chance(0.3) {
+		nfail = rng.Range(1, calls)
+	}
+	*history = append(*history, c13step{Batch: batch, Op: "get-while-GetPeers-fails", W: c.w, Env: c.env.Name, Nth: nfail})
+	fmt.Fprintf(kinds, "F%d/%d;", nfail, calls)
+	peers.setFaults(nfail, true)
+	caches[c.w][c.env.Name] = factory.GetSamplerImplementationForKey(c.env.Name)
+	peers.setFaults(0, false)
+	run.Count("faulty_creation_steps", 1)
+}
+
 func TestVerif_C13(t *testing.T) {
 	run := verifkit.Start(t, "C13", "sample")
 	defer run.Finish()
-	run.Rule("each case = a rules file with 2-4 environments of throughput samplers (Total/EMA/Windowed; top-level and downstream of rules; with and without UseClusterSize, incl. same-environment twins differing only in UseClusterSize; goals 1..12345) and a history of 6-20 batches; a batch runs concurrently: peer-list changes (1..12 peers, same-size replacements) delivered by `go callback()`, lazy sampler creation on 1-8 goroutine workers with own caches, optionally a reload (new goals / UseClusterSize flipped) racing them; after 15% of batches one extra lazy creation runs whose nth GetPeers call is parked (scripted peers) after taking its snapshot while a membership change is made and its callbacks finish or block on the factory mutex, then released; after each batch / parked step everything is joined and every throughput sampler held by a worker is compared with the model; non-trivial = a sampler with UseClusterSize was checked with >1 peers after at least one peer change; distinct = abstract batch-kind history")
+	run.Rule("each case = a rules file with 2-4 environments of throughput samplers (Total/EMA/Windowed; top-level and downstream of rules; with and without UseClusterSize, incl. same-environment twins differing only in UseClusterSize; goals 1..12345) and a history of 6-20 batches; a batch runs concurrently: peer-list changes (1..12 peers, same-size replacements) delivered by `go callback()`, lazy sampler creation on 1-8 goroutine workers with own caches, optionally a reload (new goals / UseClusterSize flipped) racing them; after 15% of batches one extra lazy creation runs whose nth GetPeers call is parked (scripted peers) after taking its snapshot while a membership change is made and its callbacks finish or block on the factory mutex, then released; 35% of scripted-peers cases make GetPeers fail for PRNG-chosen calls and after 15% of batches one lazy creation runs while all (or the first k) of its GetPeers calls fail; 25% of cases use the REAL peer.FilePeers over the MockConfig peer list, which changes only by reload (followed by ClearDynsamplers and lazy re-creation) and never fires callbacks; after each batch / parked / faulty step everything is joined and every throughput sampler held by a worker is compared with the model; non-trivial = a sampler with UseClusterSize was checked with >1 peers after at least one peer change; distinct = abstract batch-kind history")
 	run.Assume("every writer of a live dynsampler's GoalThroughputPerSec holds SamplerFactory.mutex (updatePeerCounts, getSharedDynsamplerAndRecorder), so reading it under that mutex at a joined point is race-free")
-	run.Assume("peer.Peers implementations invoke registered callbacks on membership change, in new goroutines, and GetPeers returns the current non-empty list without error")
+	run.Assume("scripted peer.Peers: callbacks are invoked on membership change in new goroutines; GetPeers returns the current non-empty list or an error. Where a GetPeers call failed after the most recent membership change the property does not fix what count the node must assume: the current count and the last successfully observed count are both accepted")
 
-	run.Cases("histories", run.N(100, 3500), func(i int, rng *verifkit.Rand) { c13case(run, rng, i < 2) })
+	run.Cases("histories", run.N(60, 3000), func(i int, rng *verifkit.Rand) { c13case(run, rng, i < 2) })
 }
 
 func c13case(run *verifkit.Run, rng *verifkit.Rand, sample bool) {
-	peers := &c13Peers{fileStyle: rng.Chance(0.4), list: c13PeerList(rng, verifkit.Pick(rng, 1, 1, 2, 3, 5))}
+	peers := &c13Peers{fileStyle: rng.Chance(0.4), list: c13PeerList(rng, verifkit.Pick(rng, 1, 1, 2, 3, 5)), frng: rng.Fork("faults"), lastObserved: 1}
 	style := "redis(go cb)"
 	if peers.fileStyle {
 		style = "file(register calls cb, then go cb)"
 	}
+	if rng.Chance(0.35) {
+		peers.failProb = 0.15
+		style += "+GetPeers faults"
+	}
 	file := c13genFile(rng, nil)
 	files := []*c13file{file}
 	mc := &config.MockConfig{Samplers: file.built}
-	factory := &SamplerFactory{Config: mc, Logger: &logger.NullLogger{}, Metrics: &metrics.NullMetrics{}, Peers: peers}
+	// realFile: the real peer.FilePeers over the configuration; its peer list changes only
+	// through a reload and it never invokes callbacks after start-up.
+	realFile := rng.Chance(0.25)
+	var factoryPeers peer.Peers = peers
+	if realFile {
+		style = "real peer.FilePeers"
+		mc.PeerManagementType, mc.GetPeerListenAddrVal, mc.RedisIdentifier = "file", "10.244.0.114:8081", "self"
+		mc.GetPeersVal = c13ExactCap(c13PeerList(rng, verifkit.Pick(rng, 0, 1, 2, 4)))
+		fp := &peer.FilePeers{Cfg: mc, Logger: &logger.NullLogger{}, Metrics: &metrics.NullMetrics{}}
+		if err := fp.Start(); err != nil {
+			run.Inconclusive("FilePeers.Start: " + err.Error())
+			return
+		}
+		factoryPeers = fp
+	}
+	allowedCounts := func() []int {
+		if realFile {
+			return []int{len(mc.GetPeers()) + 1} // configured peers + this node
+		}
+		return peers.allowed()
+	}
+	factory := &SamplerFactory{Config: mc, Logger: &logger.NullLogger{}, Metrics: &metrics.NullMetrics{}, Peers: factoryPeers}
 	if err := factory.Start(); err != nil {
 		run.Inconclusive("factory.Start: " + err.Error())
 		return
@@ -506,8 +629,8 @@ func c13case(run *verifkit.Run, rng *verifkit.Rand, sample bool) {
 
 	// verify: quiescent point, compare every live throughput sampler with the model
 	verify := func() {
-		cur, _ := peers.GetPeers()
-		npeers := len(cur)
+		allowed := allowedCounts()
+		npeers := allowed[0]
 		type live struct {
 			w    int
 			env  string
@@ -556,7 +679,14 @@ func c13case(run *verifkit.Run, rng *verifkit.Rand, sample bool) {
 					interesting = true
 				}
 			}
-			if l.goal == want {
+			ok := false
+			for _, c := range allowed {
+				ok = ok || l.goal == l.def.expected(c)
+			}
+			if ok {
+				if l.goal != want {
+					run.Count("goals_accepted_for_last_observed_count_after_GetPeers_fault", 1)
+				}
 				continue
 			}
 			// diagnose: is the dynsampler also behind a definition with the other UseClusterSize?
@@ -596,16 +726,27 @@ func c13case(run *verifkit.Run, rng *verifkit.Rand, sample bool) {
 	for b := 0; b < batches; b++ {
 		// ---- plan the batch from rng only
 		var peerSets [][]string
-		for k, kk := 0, verifkit.Pick(rng, 0, 0, 1, 1, 1, 2, 3); k < kk; k++ {
+		for k, kk := 0, verifkit.Pick(rng, 0, 0, 1, 1, 1, 2, 3); k < kk && !realFile; k++ {
 			n := verifkit.Pick(rng, 1, 2, 2, 3, 3, 4, 5, 7, 12)
 			peerSets = append(peerSets, c13PeerList(rng, n))
 			history = append(history, c13step{Batch: b, Op: "peers", N: n})
 		}
-		reload := rng.Chance(0.2)
+		reload := rng.Chance(0.2) || (realFile && rng.Chance(0.3))
+		var newFilePeers []string
+		reloadPeers := false
 		if reload {
-			file = c13genFile(rng, file)
-			files = append(files, file)
-			history = append(history, c13step{Batch: b, Op: "reload"})
+			if !realFile || rng.Chance(0.5) {
+				file = c13genFile(rng, file)
+				files = append(files, file)
+			}
+			st := c13step{Batch: b, Op: "reload"}
+			if realFile && rng.Chance(0.8) {
+				// PeerManagement.Peers changed by the reload
+				reloadPeers = true
+				newFilePeers = c13ExactCap(c13PeerList(rng, verifkit.Pick(rng, 0, 1, 2, 3, 4, 6, 11)))
+				st.Op, st.N = "reload-with-peer-list", len(newFilePeers)+1
+			}
+			history = append(history, st)
 		}
 		type get struct {
 			env  string
@@ -670,19 +811,26 @@ func c13case(run *verifkit.Run, rng *verifkit.Rand, sample bool) {
 		if reload {
 			mc.Mux.Lock()
 			mc.Samplers = file.built
+			if reloadPeers {
+				mc.GetPeersVal = newFilePeers
+			}
 			mc.Mux.Unlock()
 			c13FactoryReload(factory)
 			close(reloaded)
 		}
 		wg.Wait()
 		peers.inflight.Wait()
-		if len(peerSets) > 0 {
+		if len(peerSets) > 0 || reloadPeers {
 			changedOnce = true
 		}
 
 		verify()
 
-		if rng.Chance(0.15) {
+		if !realFile && rng.Chance(0.15) {
+			c13faultyCreation(run, rng, b, peers, factory, file, caches, &history, &kinds)
+			verify()
+		}
+		if !realFile && rng.Chance(0.15) {
 			c13parkedCreation(run, rng, b, peers, factory, file, caches, &history, &kinds)
 			changedOnce = true
 			verify()
@@ -690,6 +838,10 @@ func c13case(run *verifkit.Run, rng *verifkit.Rand, sample bool) {
 	}
 	run.Count("batches", int64(batches))
 	run.Count("peer_callbacks_fired", int64(peers.fired))
+	run.Count("GetPeers_faults_injected", int64(peers.faults))
+	if realFile {
+		run.Count("cases_with_real_FilePeers", 1)
+	}
 	if interesting {
 		run.Nontrivial(kinds.String())
 	}
